@@ -1,10 +1,11 @@
 import P2.Model.Replay
 import P2.Drv.Util
 /-
-Request:  `<policy> <row>* | <cur>*`
+Request:  `<policy> <row>* | <cur>* | <assoc author>*`
     policy  `A` automatic / `E` explicit
     row     `<author>.<seq>.<b|n>.<id>`   a persisted operation of the topic (b = has a body)
     cur     `<author>:<seq>`              persisted cursor entry
+    assoc   `<author>`                    author whose log is associated with the topic (`topics_v1`)
 Answer:   `<delivered ids in replay order> | <cursor after the replay as author:seq, sorted by author>`
 -/
 open P2 P2.Replay P2.Heights P2.Drv
@@ -30,14 +31,14 @@ def handle (line : String) : String :=
   | pol :: rest =>
     if pol ≠ "A" ∧ pol ≠ "E" then "bad-op" else
     match splitTok "|" rest with
-    | [rowsT, curT] =>
-      match rowsT.mapM parseRow, curT.mapM parseCur with
-      | some rows, some cur =>
-        let p : Persist := { rows := rows, cursor := cur }
+    | [rowsT, curT, assocT] =>
+      match rowsT.mapM parseRow, curT.mapM parseCur, natList? assocT with
+      | some rows, some cur, some assoc =>
+        let p : Persist := { rows := rows, cursor := cur, assoc := assoc }
         let d := (delivered p).map toString
         let c := ((replayCursor (pol = "A") p).toArray.qsort (fun a b => a.1 < b.1)).toList.map fun e => s!"{e.1}:{e.2}"
         " ".intercalate d ++ " | " ++ " ".intercalate c
-      | _, _ => "bad-op"
+      | _, _, _ => "bad-op"
     | _ => "bad-op"
   | _ => "bad-op"
 
